@@ -107,6 +107,7 @@ def total_steps(name):
     tick.PAYLOAD.clear()
     tick.PAYLOAD.update({"inner": "a", "outer": "b"})
     fs = sched.SchedFS()
+    fs.nodes["/s"] = ("dir",)
     sched.install(fs)
     setup, bodies = _scenario(name)
     for b in setup:
@@ -134,6 +135,7 @@ def sched_impl(a):
     tick.PAYLOAD.clear()
     tick.PAYLOAD.update({"inner": a["pay"], "outer": "o"})
     fs = sched.SchedFS()
+    fs.nodes["/s"] = ("dir",)  # like the temporary root of the real-OS replay: same step indices
     sched.install(fs)
     setup, bodies = _scenario(name)
     old = None
